@@ -23,7 +23,8 @@ RULE = ("random histories of up to 30 ops on the real RollingFileAppender: trigg
         "bursts (also of one thread = back-to-back appends) so that several roll-overs fall into one wall-clock "
         "second while the previous rotation (1/6 of the cases: gzip of a 12-40 KB file) is still running; after "
         "every op a consistent 'pending' snapshot is taken at once (every retained record must be in some archive, "
-        "temp or active file), then the driver waits until no temp file is left and compares the directory with "
+        "temp or active file; for plain appends and restarts it must be one of the states of the background-rotation "
+        "machine coq/Model/RollingBg.v), then the driver waits until no temp file is left and compares the directory with "
         "the synchronous model and the suffix oracle. EXPLORATION (60 quick / 600 thorough), a fault at the "
         "archive step, which is C08's subject: gzip roller with count 1 whose archive slot is a symlink to /dev/full "
         "while the first records arrive - rotations attempted meanwhile must make append return Err and keep the "
@@ -31,10 +32,14 @@ RULE = ("random histories of up to 30 ops on the real RollingFileAppender: trigg
         "One lifetime of 520 appends under an on-start-up trigger. non-trivial = at least 2 records "
         "and a trigger able to fire; distinct = distinct case line")
 ASSUMPTIONS = [a for a in rc.COMMON_ASSUMPTIONS if not a.startswith("synchronous rotation")] + [
-    "background_rotation: TRACE VALIDATION AT QUIESCENT POINTS only - the theorems are about the synchronous roller; "
-    "for the feature build the directory after each op, once all rotation threads have finished, must equal the "
-    "synchronous model's; the interleavings of the background thread with later appends are sampled by real "
-    "executions, not proved (no queue model in Coq)",
+    "background_rotation: proved for the interleaving machine of coq/Model/RollingBg.v (the appender's file-system "
+    "calls against the rename steps of the rotation thread, spawn blocked while a rotation is in flight): under every "
+    "schedule the quiescent directory is the synchronous model's (C05_background_quiescent_is_sync, "
+    "C05_background_anytime). Tie to the code: the feature build's directory at quiescent points must equal the "
+    "synchronous model's, and the snapshot taken right after each call returned (rotation thread possibly running) "
+    "must be one of the machine's states (0..all rotation steps done; for gzip additionally 'archive written, temp not "
+    "yet removed'). The real thread schedule is sampled, the condvar/spawn protocol is modelled, temp names are "
+    "assumed not to exist when picked (the loop in make_temp_file_name exits on exactly that)",
     "hot restart: two live instances on one path are covered only while no rotation happens during the overlap "
     "(a rotation under a second open handle sends that instance's records to the archived file - outside the "
     "property, which speaks of restarts)",
